@@ -342,6 +342,28 @@ func (d D) Candidates(p *ast.Program, mode string, n int) []RenameStep {
 		}
 		return freshName(), false
 	}
+	// names bound inside the functions a declaration calls: the caller/callee coincidences
+	calleeNames := map[int][]string{}
+	byName := map[string]int{}
+	for i, dc := range p.Decls {
+		if dc.Kind == ast.DFun {
+			byName[dc.Name] = i
+		}
+	}
+	for i, dc := range p.Decls {
+		if dc.Body == nil {
+			continue
+		}
+		seenFn := map[string]bool{}
+		dc.Body.Walk(func(t *ast.Term) {
+			if t.Kind == ast.TCall && !seenFn[t.Fn] {
+				seenFn[t.Fn] = true
+				if j, ok := byName[t.Fn]; ok {
+					calleeNames[i] = append(calleeNames[i], perDeclNames(p.Decls[j])...)
+				}
+			}
+		})
+	}
 	var steps []RenameStep
 	var declIdx []int
 	for i := range perDecl {
@@ -356,6 +378,9 @@ func (d D) Candidates(p *ast.Program, mode string, n int) []RenameStep {
 			di := declIdx[d.Pick(len(declIdx), "decl")]
 			from := perDecl[di][d.Pick(len(perDecl[di]), "from")]
 			to, cross := newName()
+			if mode == "reuse" && len(calleeNames[di]) > 0 && d.Likely(45, "calleename") {
+				to, cross = calleeNames[di][d.Pick(len(calleeNames[di]), "callee")], true
+			}
 			if to != from {
 				steps = append(steps, RenameStep{Kind: "channel", Decl: di, From: from, To: to, Cross: cross})
 			}
@@ -414,3 +439,6 @@ func (d D) Permute(p *ast.Program) *ast.Program {
 	q.Decls = out
 	return q
 }
+
+
+func perDeclNames(d *ast.Decl) []string { return boundNames(d) }
